@@ -311,10 +311,20 @@ def _run_suite(pid: str, suite: Suite, seed: int, shard: int, nshards: int, acc:
                 acc.budget_hit = True
                 raise StopRun()
         machine.pv_report = staticmethod(on_case)  # type: ignore
+        from hypothesis.errors import Flaky
         try:
             run_state_machine_as_test(hseed(sd)(machine), settings=_hyp_settings(suite.examples, step_count=suite.step_count))
         except StopRun:
             pass
+        except Flaky:
+            # The machine's later draws depend on what the code under test did earlier (which types got built, which calls
+            # succeeded).  When that code answers differently from run to run - the very thing a history property is about: a
+            # recycled id, a stale cache - Hypothesis finds its own replay inconsistent.  With failures already recorded (each
+            # with its own replayable history) they stand and the exploration of this shard ends here; without any, the
+            # inconsistency is the harness's own problem and is reported as such.
+            if not any(rec.get('suite') == suite.name for rec in acc.failures.values()):
+                raise
+            acc.budget_hit = True
         return
 
     assert suite.strategy is not None
